@@ -232,11 +232,17 @@ def check(tier):
             pads = (list(range(HALF - 12, HALF + 6)) + list(range(2 * HALF - 12, 2 * HALF + 6)) + [0, 1, 3 * HALF - 2, 3 * HALF + 1]) if tier == "quick" \
                 else sorted(set(list(range(0, 2 * HALF + 65, 41)) + list(range(HALF - 70, HALF + 20)) + list(range(2 * HALF - 70, 2 * HALF + 20)) + list(range(3 * HALF - 20, 3 * HALF + 8))))
             padder = frags[0] + " "
+            # tokens written back to back: the look-ahead character that ends a lexeme is then the first character of the next
+            # token, multi-byte ones included, and the sweep puts each of its bytes on the boundary
+            solid = [f_ for f_ in frags if f_.strip() == f_ and f_ and "\n" not in f_ and not f_.startswith("\"unterminated") and not f_.startswith("//") and not f_.startswith("#")]
+            base2 = "".join(solid) + "".join(reversed(solid))
             ptexts = []
             for k in pads:
                 reps, rem = divmod(k, len(padder))
                 ptexts.append(padder * reps + " " * rem + base)
                 ptexts.append(" " * k + base.rstrip())
+                ptexts.append(" " * k + base2)
+                ptexts.append(" " * k + base2 + "\n")
             # long lexemes: the reader's stacks grow in chunks and a lexeme may span both halves
             longs = [f_ for f_ in frags if len(f_) == 1 and dfa.step(dfa.start, ord(f_)) is not None
                      and dfa.step(dfa.step(dfa.start, ord(f_)), ord(f_)) == dfa.step(dfa.start, ord(f_))][:2]
